@@ -123,3 +123,50 @@ class SpyCallback(AbstractCallback):
 
     def continue_training(self, ctx, *, key):
         return jnp.array(True)
+
+
+class TargetSpy(SpyCallback):
+    """Spy that reports, from INSIDE `learn()`, the state every iteration starts from (and the final one): iteration
+    count, online networks and target networks — found in the context's `locals` by their field names."""
+
+    sink: Any = eqx.field(static=True)
+
+    def __init__(self, sink: list):
+        super().__init__()
+        self.sink = sink
+
+    @staticmethod
+    def _find_state(ctx):
+        loc = getattr(ctx, "locals", None) or {}
+        cands = [v for k, v in sorted(loc.items(), key=lambda kv: (kv[0] != "state", kv[0]))
+                 if hasattr(v, "iteration_count") and (hasattr(v, "qf1_target") or hasattr(v, "target_policy"))]
+        return cands[0] if cands else None
+
+    def _emit(self, where: str, ctx):
+        import jax
+        from jax.experimental import io_callback
+
+        st = self._find_state(ctx)
+        if st is None:
+            io_callback(lambda: self.sink.append({"where": where, "missing": True}), None, ordered=True)
+            return
+        if hasattr(st, "qf1_target"):
+            online, target = (st.qf1, st.qf2), (st.qf1_target, st.qf2_target)
+        else:
+            online, target = st.policy, st.target_policy
+        flat = lambda t: jnp.concatenate([jnp.ravel(x).astype(float) for x in jax.tree.leaves(eqx.filter(t, eqx.is_inexact_array))])  # noqa: E731
+
+        def host(count, on, tg):
+            import numpy as np
+
+            self.sink.append({"where": where, "count": int(np.asarray(count)), "online": np.asarray(on).copy(), "target": np.asarray(tg).copy()})
+
+        io_callback(host, None, st.iteration_count, flat(online), flat(target), ordered=True)
+
+    def on_iteration(self, ctx, *, key):
+        self._emit("iteration", ctx)
+        return SpyState(None)
+
+    def on_training_end(self, ctx, *, key):
+        self._emit("end", ctx)
+        return ctx.state
